@@ -33,8 +33,11 @@ Next == Stop \/ \E nm \in Names : Add(nm)
 Spec == Init /\ [][Next]_<<b, done>>
 
 Laws == RoundTrip(b) /\ Independent(b) /\ Aligned(b)
-\* malformed variants of the finished bundle: each declared length replaced by a wrong one must be rejected
-Malformed == done => \A i \in DOMAIN b : \A d \in {0, 3, ChunkLen(b[i]) + 4 * (Len(b) + 8)} :
+\* malformed variants of the finished bundle: each declared length replaced by one below the chunk header or reaching
+\* beyond the packet end must be rejected, and so must a merely longer one for the last chunk. (A longer length for
+\* an earlier chunk that happens to end exactly on the packet end swallows the later chunks and is structurally
+\* well-formed: with three chunks <<sackGaps, data1, idataB>> and +44 on the first -- no law forbids it.)
+Malformed == done => \A i \in DOMAIN b : \A d \in {0, 3, PacketLen(b)} \cup (IF i = Len(b) THEN {ChunkLen(b[i]) + 4 * (Len(b) + 8)} ELSE {}) :
                Walk(PacketLen(b), [j \in DOMAIN b |-> IF j = i THEN d ELSE ChunkLen(b[j])], 12) # "ok"
 Emit == ~done \/ PrintT(<<"BEHAVIOUR", ToJson([bundle |-> [i \in DOMAIN b |-> b[i].k], len |-> PacketLen(b),
                                                offs |-> Offsets(b, 12), lens |-> [i \in DOMAIN b |-> ChunkLen(b[i])]])>>)
